@@ -58,7 +58,7 @@ _state = {}
 def generate(ctx):
     from ..gen import gen_c17
     path, methods, keep, defaults = gen_c17.generate()
-    _state.update(methods=methods, keep=keep, defaults=dict(defaults))
+    _state.update(methods=methods, keep=keep, defaults=dict(defaults), log2=gen_c17.measure_log2())
     return [path]
 
 
@@ -297,6 +297,20 @@ def fold_requests(ctx):
         for nab in (-1, 0, 1, 2, 3, 4, 5):
             reqs.append((length, nab, edge))
             reqs.append((length, nab, [rng.randint(-2 ** 63, 2 ** 63 - 1) for _ in range(24)]))
+    # int(log2(length)) for ALL lengths below 2^64: both sides of every power of two and of every measured float
+    # round-up threshold (Gen.C17.log2RoundsUpFrom), plus random non-powers of two of every magnitude
+    from ..gen import gen_c17
+    big = set()
+    for k in range(1, 64):
+        big |= {2 ** k - 1, 2 ** k, 2 ** k + 1, 2 ** k + 2 ** (k - 1), rng.randrange(2 ** k, 2 ** (k + 1))}
+    for k, t in _state.get('log2') or gen_c17.measure_log2():
+        big |= {t - 2, t - 1, t, t + 1, rng.randrange(t, 2 ** k), rng.randrange(2 ** (k - 1), t)}
+    big = sorted(x for x in big if 2 <= x < 2 ** 64)
+    if ctx.quick:
+        big = [x for x in big if x.bit_length() > 40 or x % 3 == 0 or x & (x - 1) == 0]
+    for length in big:
+        for nab in (2, 3):
+            reqs.append((length, nab, [rng.randint(-2 ** 63, 2 ** 63 - 1) for _ in range(6)] + [-1, 2 ** 63 - 1, -2 ** 63]))
     # exhaustive: every h in [-2^7, 2^7) individually for the small lengths (each bit pattern of the low bits)
     for length in (1, 2, 4, 8, 16):
         for nab in (1, 2, 3, 4):
